@@ -93,10 +93,17 @@ impl DiagnosticMessage for ValueError {
 
 impl From<ValueError> for ExpressionError {
     fn from(err: ValueError) -> Self {
-        Self::Error {
-            message: err.message(),
-            labels: vec![],
-            notes: vec![],
+        match err {
+            // `abort` and `return` raised by the right-hand side of `||` are control flow,
+            // not an error of the operator itself.
+            ValueError::Or(
+                err @ (ExpressionError::Abort { .. } | ExpressionError::Return { .. }),
+            ) => err,
+            err => Self::Error {
+                message: err.message(),
+                labels: vec![],
+                notes: vec![],
+            },
         }
     }
 }
